@@ -5,4 +5,6 @@ From V Require Import C12.Model C13.Model.
 Extraction "c13_model.ml" lifetime recover crash_at resume_height verdict flat load
   flush_before_visible no_conflict consecutive_from commits_in logged_first init_state
   good_run life_disc replay_covers at_or_above live_good
+  plain_run live_plain fault_outcome end_disk stop_ok log_covers_visible prunes_follow_cb clean_when_visible
+  logged_state entries_of replay_quiet wal_at pruned_upto st_sim_b
   N.of_nat Z.of_N.
